@@ -10,6 +10,15 @@ BUILT = {
    'TLC checks the declarative statement of the documented layering rules (BklProps!C01Props: MergeIsDocumented, Preserved, Concat, ScalarWins, DeleteRemoves, ReplaceIsChild) on every (document, patch) pair of the bounded chain model MC_Merge and emits every explored transition; each is replayed on the real library through MergeDocument. In the other direction thousands of random 2-4 layer chains, generated relative to the real merged state, are recorded from the real library and validated event by event against the Parser machine of the specification (BklTrace). Small-scope exhaustive plus sampled: the rules are per-node case analyses, so small trees reach every case.',
    'Trusts TLC, the tv projection between Go values and tagged trees, and that MergeDocument+Documents expose the merge result. Integral-valued floats are outside the generated domain.',
    'TLA+ spec (BklMerge/BklParser/BklProps) + TLC bounded model with transition replay on the code + TLC trace validation of recorded runs', '6 C01'),
+
+ 'C02': ('model_checking',
+   'TLC explores every call history (exhaustive to the stated length) of the Parser machine over the C02 alphabet (base streams of 1-3 documents, patches with $match absent / {} / pattern / $invert / null / miss, parents = base layer or previous patch) with the history kept in the state, asserts OrderPreserved, OnlyTargetsChange, AsIfAlone and AppendIsPatch on every step, and prints each history; the harness drives ONE live Parser along each history and compares Documents() after every call. Random streams (1-4 base documents, 1-3 layers of 1-3 documents) recorded from the real library are validated call by call against the same machine.',
+   'Trusts TLC and the tv projection. The file route (MergeFileLayers) of the quantifier is exercised by the C03 check, which uses the same Parser machine.',
+   'TLA+ Parser machine (BklParser) + TLC bounded history model (MC_Parser, family C02) replayed on live Parsers + TLC trace validation', '6 C02'),
+ 'C19': ('model_checking',
+   'TLC explores every interleaving (exhaustive to the stated length) of MergeDocument / Documents / OutputDocuments / Output calls over documents using $merge, $replace, $repeat, interpolation and $output, checks the action property ObservationIsPure, and prints each history with the expected state and outputs after every call; the harness drives one live Parser per history and compares Documents(), the outputs and the output bytes of repeated calls. Random histories (up to 8 calls, generated directive-laden documents, three output formats) recorded from the real library are validated by TLC: outputs must equal the evaluation of the merged state, Documents() must equal the merged state, and repeated output calls on one state must have equal digests.',
+   'Trusts TLC and the tv projection; $encode/$decode documents are exercised by C14, OutputToWriter/OutputToFile by C05 (they wrap Output).',
+   'TLA+ Parser+evaluator machine + TLC bounded history model (MC_Parser, family C19) replayed on live Parsers + TLC trace validation with digest history', '6 C19'),
 }
 PENDING = 'check not built yet (work in progress; DESIGN.md section 6 describes the planned decision procedure)'
 
